@@ -184,3 +184,84 @@ func c17RunTwo(c *Ctx, h c17Hist, base string) *c17Out {
 	cancel()
 	return o
 }
+
+// ---------- mode "poll": the WithPollInterval fallback ----------
+//
+// The config's DIRECTORY is removed (which silently drops the watch on it and on the file) and, several poll
+// intervals later, recreated with new content: no file-system event reaches the watcher, only the fallback poll can
+// see the change - at the first outage and at every later one.
+
+func c17GenPoll(r *RNG, id string) c17Hist {
+	h := c17Hist{ID: id, Mode: "poll", Layout: "plain", Init: fmt.Sprintf(`{"A":"%s.0","N":0}`, id), InitValid: true}
+	for k := 1; k <= 2+r.Intn(2); k++ {
+		h.Ops = append(h.Ops, c17Op{Mech: "rmdir-recreate", What: "new", Valid: true, Content: fmt.Sprintf(`{"A":"%s.%d","N":%d}`, id, k, k),
+			PauseUS: (3 + r.Intn(4)) * 40000}) // outage length: 3-6 poll intervals
+	}
+	return h
+}
+
+func c17RunPoll(c *Ctx, h c17Hist, base string) *c17Out {
+	o := &c17Out{hist: h, counts: map[string]int{}}
+	const interval = 40 * time.Millisecond
+	dir := filepath.Join(base, h.ID, "cfgdir")
+	path := filepath.Join(dir, "config.json")
+	defer os.RemoveAll(filepath.Join(base, h.ID))
+	put := func(content string) error {
+		if err := os.MkdirAll(dir, 0o755); err != nil {
+			return err
+		}
+		return os.WriteFile(path, []byte(content), 0o644)
+	}
+	if err := put(h.Init); err != nil {
+		o.add("violation", "harness: cannot set up the temp directory: "+err.Error(), nil, nil, nil)
+		return o
+	}
+	ws, err := file.NewWatchingSource(path, &djson.Decoder{}, file.WithPollInterval(interval))
+	if err != nil {
+		o.add("violation", "NewWatchingSource failed: "+err.Error(), nil, nil, nil)
+		return o
+	}
+	ctx, cancel := context.WithCancel(context.Background())
+	defer cancel()
+	var d *dials.Dials[c17JSONCfg]
+	pprof.Do(ctx, pprof.Labels("c17", h.ID), func(ctx context.Context) {
+		d, err = dials.Config(ctx, &c17JSONCfg{}, ws)
+	})
+	if err != nil {
+		o.add("violation", "dials.Config failed on a valid initial file: "+err.Error(), nil, nil, nil)
+		return o
+	}
+	want := func(s string) c17JSONCfg {
+		var v c17JSONCfg
+		json.Unmarshal([]byte(s), &v)
+		return v
+	}
+	for i, op := range h.Ops {
+		if err := os.RemoveAll(dir); err != nil {
+			o.add("violation", "harness: cannot remove the directory: "+err.Error(), nil, nil, nil)
+			return o
+		}
+		c17Sleep(op.PauseUS)
+		if err := put(op.Content); err != nil {
+			o.add("violation", "harness: cannot recreate the directory: "+err.Error(), nil, nil, nil)
+			return o
+		}
+		t0 := time.Now()
+		for *d.View() != want(op.Content) && time.Since(t0) < c17Deadline {
+			time.Sleep(c17Poll)
+		}
+		if got := *d.View(); got != want(op.Content) {
+			o.add("violation", fmt.Sprintf("poll mode: after outage %d (directory removed, recreated %d poll intervals later) the view did not converge to the file's final content within the deadline (%d poll intervals)",
+				i+1, op.PauseUS/40000, int(c17Deadline/interval)), want(op.Content), got, nil)
+			return o
+		}
+		if conv := time.Since(t0); conv > o.converged {
+			o.converged = conv
+		}
+	}
+	o.count("poll/outages-survived")
+	o.nontrivial = len(h.Ops) >= 2
+	o.canon = fmt.Sprint(h.Init, h.Ops)
+	cancel()
+	return o
+}
